@@ -488,18 +488,18 @@ def kani_playback(prop_id, scratch, harness, features=None, cbmc_args=None):
     except subprocess.TimeoutExpired:
         return None, None, None, False, "playback generation timed out"
     test_src, test_name, file_rel = None, None, None
-    added = ""
+    tests = []
     for pth, old in before.items():
         new = open(pth).read()
-        if new != old and len(new) > len(old):
-            added = new[len(old.rstrip("\n")):] if new.startswith(old.rstrip("\n")) else new[len(old):]
-            file_rel = os.path.relpath(pth, scratch)
-            # restore the file; candidate tests are appended one at a time below
+        if new != old:
+            # Kani inserts the generated unit tests right behind the harness function
+            found = re.findall(r"(?:///[^\n]*\n)*#\[test\]\nfn kani_concrete_playback_[A-Za-z0-9_]+\(\) \{.*?\n\}\n", new, re.S)
+            if found:
+                file_rel = os.path.relpath(pth, scratch)
+                tests = found
             open(pth, "w").write(old)
-    if not added:
-        return None, None, None, False, p.stdout[-1500:]
-    # one generated test per failed check *and* per cover: keep the ones for failed checks
-    tests = ["/// Test generated for harness" + t for t in added.split("/// Test generated for harness")[1:]]
+    if not tests:
+        return None, None, file_rel, False, p.stdout[-1500:]
     cands = [t for t in tests if "Check for `cover`" not in t]
     last_out = ""
     for t in cands[:6]:
@@ -563,18 +563,21 @@ def match_known(known, prop, obligation, detail=""):
 # main flow
 # ------------------------------------------------------------------------------------------
 
+OUT = os.environ.get("VERIF_OUT", ROOT)   # seed runs redirect evidence / replay files away from /verif
+
+
 def write_evidence(prop, ev):
-    os.makedirs(os.path.join(ROOT, "evidence"), exist_ok=True)
-    p = os.path.join(ROOT, "evidence", prop + ".json")
+    os.makedirs(os.path.join(OUT, "evidence"), exist_ok=True)
+    p = os.path.join(OUT, "evidence", prop + ".json")
     with open(p, "w") as f:
         json.dump(ev, f, indent=1, sort_keys=False)
     return p
 
 
 def write_replay(prop, name, payload):
-    os.makedirs(os.path.join(ROOT, "replay"), exist_ok=True)
+    os.makedirs(os.path.join(OUT, "replay"), exist_ok=True)
     safe = re.sub(r"[^A-Za-z0-9_.-]", "_", name)[:120]
-    p = os.path.join(ROOT, "replay", "%s-%s.json" % (prop, safe))
+    p = os.path.join(OUT, "replay", "%s-%s.json" % (prop, safe))
     with open(p, "w") as f:
         json.dump(payload, f, indent=1)
     return p
